@@ -6,13 +6,39 @@ V = os.path.dirname(os.path.dirname(os.path.abspath(__file__)))
 ALL = ["C%02d" % i for i in range(1, 19)]
 
 # property -> (level text, level note, design ref)
+GENERIC = ("Unbounded deductive proof, function by function: every function under contract for this property (listed with obligation "
+           "counts in the evidence file) has machine-checked pre/postconditions, loop invariants, variants and frame conditions over the "
+           "container's representation invariant and abstract view (sequence / set / map, with ghost state where needed); the VCs are "
+           "generated from the go/ssa form of /repo's working tree on every run and discharged by z3/cvc5; callers are checked against "
+           "callee contracts only. All histories follow by induction over the per-operation contracts. Scope actually covered: %s")
+NOTE = ("Trusted: go/ssa translation and the engine's Go semantics (A-SSA), solver unsat answers (A-SMT), mathematical integers, "
+        "assumed contracts of external functions (slices.*, fmt, strings, encoding/json) and of user comparators/callbacks, the "
+        "history-induction meta-argument; all listed per run in evidence 'assumptions'. Functions of the property's anchor files that "
+        "are not yet under contract are outside the claim: %s")
 CLAIMED = {
- "C05": ("Unbounded deductive proof (all capacities c>=1, all wrap-around positions, all histories by induction over per-operation contracts) "
-         "that the circular buffer refines a bounded FIFO sequence: every exported operation of queues/circularbuffer has a machine-checked "
-         "contract (representation invariant + abstract sequence view), VCs are generated from the go/ssa form of /repo's working tree on every "
-         "run and discharged by z3/cvc5. Stacks and the list-backed queues are added as their list contracts land.",
-         "Trusted: go/ssa translation and the engine's Go semantics, solver unsat answers, mathematical integers (no overflow), history-induction "
-         "meta-argument. See evidence assumptions.", "DESIGN.md §4 C05"),
+ "C01": (GENERIC % "HashMap and HashBidiMap (Put/Get/Remove/Clear/Size/Keys/Values as a finite map; Keys/Values duplicate-free enumerations).",
+         NOTE % "TreeMap, LinkedHashMap, RedBlackTree, AVLTree, BTree, TreeBidiMap.", "DESIGN.md §4 C01"),
+ "C03": (GENERIC % "ArrayList (all operations except Sort's permutation clause) and DoublyLinkedList (Add/Append/Get/Remove/Clear/Values/IndexOf/Size/Empty with a ghost node sequence).",
+         NOTE % "SinglyLinkedList; DoublyLinkedList Prepend/Insert/Set/Swap/Sort/Contains.", "DESIGN.md §4 C03"),
+ "C04": (GENERIC % "HashSet (Add/Remove/Contains/Clear/Size/Values over the Go-map model).", NOTE % "TreeSet, LinkedHashSet.", "DESIGN.md §4 C04"),
+ "C05": (GENERIC % "CircularBuffer (all capacities c>=1 and all wrap-around positions symbolically), ArrayStack, ArrayQueue.",
+         NOTE % "LinkedListStack, LinkedListQueue.", "DESIGN.md §4 C05"),
+ "C06": (GENERIC % "BinaryHeap Push (single and bulk/Floyd heapify), Pop, Peek, Clear with heap order as invariant, minimality by an induction lemma, and the multiset clause through ghost permutations; PriorityQueue by delegation.",
+         NOTE % "heap Values()/iterator level order; FromJSON.", "DESIGN.md §4 C06"),
+ "C08": (GENERIC % "index-cursor iterators of ArrayList, ArrayStack, ArrayQueue, CircularBuffer: Next/Prev/Begin/End/First/Last/Index/Value/NextTo/PrevTo against the cursor specification over positions -1..n.",
+         NOTE % "the remaining 14 iterator types.", "DESIGN.md §4 C08"),
+ "C10": (GENERIC % "HashBidiMap: the two inner maps are mutual inverses as a representation invariant maintained by Put/Remove/Clear; Get/GetKey agree.",
+         NOTE % "TreeBidiMap.", "DESIGN.md §4 C10"),
+ "C13": (GENERIC % "HashSet Intersection/Union/Difference: exact membership, operands unchanged (frame), result freshly allocated; identical-operand case included.",
+         NOTE % "TreeSet, LinkedHashSet set algebra.", "DESIGN.md §4 C13"),
+ "C15": (GENERIC % "Size/Empty/Values/Clear agreement for the containers under contract so far (ring, array list/stack/queue, hash map/set/bidimap, heap, priority queue, doubly linked list).",
+         NOTE % "String(); the tree-backed and linked-hash containers.", "DESIGN.md §4 C15"),
+ "C16": (GENERIC % "freshness of returned slices and ownership of stored slices (Owned two-state predicate) for ArrayList and its wrappers, ring, hash containers; argument slices are only read (frame).",
+         NOTE % "containers.GetSortedValues; remaining containers.", "DESIGN.md §4 C16"),
+ "C17": (GENERIC % "no-panic (nil, index, slice bounds, division, make, nil-map, nil-func), explicit-panic reachability, loop variants and silence obligations for every function under contract so far.",
+         NOTE % "functions not yet under contract (see evidence); integer overflow treated as mathematical.", "DESIGN.md §4 C17"),
+ "C18": (GENERIC % "empty frame ('modifies nothing' proved at every store and call) for the read-only operations under contract so far; concurrency follows by the frame meta-argument.",
+         NOTE % "read-only operations of containers not yet under contract.", "DESIGN.md §4 C18"),
 }
 
 NOT_YET = "not claimed yet: the contracts for this property are still being written in this session (the technique applies; see DESIGN.md §4)"
